@@ -244,7 +244,10 @@ def run_check_locked(P, tier, seed, replay=None, only_tie=None):
             nfail = 0
             nknown = 0
             known = core.known_findings()
-            first_reports = 0
+            # pass 1: classify every case; pass 2: report predicate failures first (they are the failing
+            # inputs), then plain disagreements, so that a failing input late in the list is never hidden
+            # behind earlier harmless differences
+            todo_fail, todo_dis = [], []
             for i, c in enumerate(cases):
                 k = tie.classify(c)
                 dist[tie.name + ":" + k] = dist.get(tie.name + ":" + k, 0) + 1
@@ -259,20 +262,20 @@ def run_check_locked(P, tier, seed, replay=None, only_tie=None):
                     why = holds[i]
                 if not dis and not fail:
                     continue
-                if fail and not dis:
-                    # a failure that is a listed known finding (matched on the unshrunk case) is reported as such and nothing else
+                if fail:
                     kf0 = [f for f in known if finding_matches(f, pid, tie.name, c, impl[i], why)]
                     if kf0:
                         nknown += 1
                         kl = "KNOWN-FINDING: property=%s %s" % (pid, kf0[0].get("what", c))
                         if kl not in known_lines:
                             known_lines.append(kl)
-                        continue
+                        if not dis:
+                            continue
+                        fail = False   # the listed finding explains the failure; a remaining difference from the model is still reported
                 ndis += dis
                 nfail += fail
-                if first_reports >= 5:
-                    continue
-                first_reports += 1
+                (todo_fail if fail else todo_dis).append((i, c, fail, why))
+            for (i, c, fail, why) in todo_fail[:5] + todo_dis[:3]:
                 # shrink
                 c2 = c
                 if tie.shrink is not None:
@@ -282,7 +285,8 @@ def run_check_locked(P, tier, seed, replay=None, only_tie=None):
                         if _fail:
                             if holds is None:
                                 return io != mo
-                            return tie.run_holds(mdl, [x], [io])[0].startswith("fail")
+                            h = tie.run_holds(mdl, [x], [io])[0]
+                            return h.startswith("fail") and not [f for f in known if finding_matches(f, pid, tie.name, x, io, h)]
                         return io != mo
                     c2 = try_shrink(tie, cpp, mdl, c, bad_case)
                 io = tie.run_impl(cpp, [c2])[0] if c2 != c else impl[i]
@@ -293,13 +297,6 @@ def run_check_locked(P, tier, seed, replay=None, only_tie=None):
                            driver_cmd="%s %s" % (cpp, tie.mode or ""), model_cmd="%s model %s" % (mdl, tie.mode or ""),
                            replay_cmd="./check %s --replay <this file>" % pid)
                 if fail:
-                    kf = [f for f in core.known_findings() if finding_matches(f, pid, tie.name, c2, io, why)]
-                    if kf:
-                        kl = "KNOWN-FINDING: property=%s %s" % (pid, kf[0].get("what", c2))
-                        if kl not in known_lines:
-                            known_lines.append(kl)
-                        first_reports -= 1
-                        continue
                     failing_input_found = True
                     violation(obj, True)
                 else:
